@@ -144,7 +144,7 @@ def exact_value(op, ex):
 class C12(Check):
     ID = 'C12'
     LEVEL = 'exploration'
-    BUDGET = {'quick': 30, 'thorough': 300}
+    BUDGET = {'quick': 30, 'thorough': 240}
     RULE = ('case = (dataset: distribution gauss/uniform/int/constant/alternating/outlier/small-ints-with-repeats/plateau-then-variation/half-integer lattice x offset {0,+-1,1e3,1e6,1e9} x scale 1e-8..1e8 x '
             'n in {0,1,2,3,10,100,1000 (quick), 10000 (thorough)} x data seed; operator in the eight aggregates; mode plain / one multiplexed key / '
             '3 interleaved groups under group_by; key_mapper on/off). Every prefix value of the streaming variant and the reduce value are compared '
@@ -158,7 +158,7 @@ class C12(Check):
     REQUIRED_OBSERVED = ['values_compared', 'stream_equals_reduce_checks']
 
     def generate(self, rng, tier, shard, nshards):
-        ncases = 1600 if tier == 'quick' else 6000
+        ncases = 1600 if tier == 'quick' else 10 ** 7
         kinds = ['gauss', 'uniform', 'int', 'constant', 'alternating', 'outlier', 'small_ints', 'plateau', 'lattice']
         offsets = [0.0, 1.0, -1.0, 1e3, 1e6, -1e6, 1e9]
         scales = [1e-8, 1e-3, 1.0, 1.0, 1e3, 1e8]
